@@ -5,6 +5,7 @@ import (
 
 	proto "github.com/aperturerobotics/protobuf-go-lite"
 	"github.com/aperturerobotics/util/broadcast"
+	"github.com/aperturerobotics/util/verifhook"
 )
 
 // CContainer is a concurrent container.
@@ -97,6 +98,7 @@ func (c *CContainer[T]) WaitValueWithValidator(
 			return val, nil
 		}
 
+		verifhook.Point("preblock", &c.bcast)
 		select {
 		case <-ctx.Done():
 			return emptyValue, ctx.Err()
